@@ -57,21 +57,21 @@ fn mk_step<const K: usize>(f: &Flags) -> Op {
     }
     Op {
         descriptor: mk_descriptor(InnerOp(mark_fwd::<K>), InnerOp(mark_inv::<K>), true, f.inverted),
-        params: p,
+        params: std::mem::ManuallyDrop::into_inner(p),
         steps: Vec::new(),
         id: nil_handle(),
     }
 }
 
 fn any_flags() -> Flags {
-    Flags { inverted: kani::any(), omit_fwd: kani::any(), omit_inv: kani::any() }
+    Flags { inverted: nd(), omit_fwd: nd(), omit_inv: nd() }
 }
 
 fn init_counts() {
     unsafe {
         for k in 0..3 {
-            COUNT_F[k] = kani::any();
-            COUNT_I[k] = kani::any();
+            COUNT_F[k] = nd();
+            COUNT_I[k] = nd();
             kani::assume(COUNT_F[k] <= NOPS && COUNT_I[k] <= NOPS);
         }
     }
@@ -108,12 +108,12 @@ fn steps_vec<const N: usize>(arr: &mut [Op; N]) -> Vec<Op> {
 }
 
 fn run_case(steps: Vec<Op>, flags: &[Flags]) {
-    let pipe = Op {
+    let pipe = std::mem::ManuallyDrop::new(Op {
         descriptor: mk_descriptor(InnerOp(pipeline_fwd), InnerOp(pipeline_inv), true, false),
-        params: mk_params_s("pipeline"),
+        params: std::mem::ManuallyDrop::into_inner(mk_params_s("pipeline")),
         steps,
         id: nil_handle(),
-    };
+    });
     let ctx = NullCtx;
     let ops0 = [any_c4(), any_c4()];
     // forward
@@ -163,8 +163,8 @@ fn c03_fold_n0() {
 fn c03_fold_n1() {
     init_counts();
     let flags = [any_flags()];
-    let mut arr = [mk_step::<0>(&flags[0])];
-    run_case(steps_vec(&mut arr), &flags);
+    let mut arr = std::mem::ManuallyDrop::new([mk_step::<0>(&flags[0])]);
+    run_case(steps_vec(&mut *arr), &flags);
     std::mem::forget(arr);
 }
 
@@ -174,8 +174,8 @@ fn c03_fold_n1() {
 fn c03_fold_n2() {
     init_counts();
     let flags = [any_flags(), any_flags()];
-    let mut arr = [mk_step::<0>(&flags[0]), mk_step::<1>(&flags[1])];
-    run_case(steps_vec(&mut arr), &flags);
+    let mut arr = std::mem::ManuallyDrop::new([mk_step::<0>(&flags[0]), mk_step::<1>(&flags[1])]);
+    run_case(steps_vec(&mut *arr), &flags);
     std::mem::forget(arr);
 }
 
@@ -185,7 +185,7 @@ fn c03_fold_n2() {
 fn c03_fold_n3() {
     init_counts();
     let flags = [any_flags(), any_flags(), any_flags()];
-    let mut arr = [mk_step::<0>(&flags[0]), mk_step::<1>(&flags[1]), mk_step::<2>(&flags[2])];
-    run_case(steps_vec(&mut arr), &flags);
+    let mut arr = std::mem::ManuallyDrop::new([mk_step::<0>(&flags[0]), mk_step::<1>(&flags[1]), mk_step::<2>(&flags[2])]);
+    run_case(steps_vec(&mut *arr), &flags);
     std::mem::forget(arr);
 }
